@@ -450,7 +450,7 @@ def run(ck: Check):
 
     # ---------------- numeric detectors
     pairs = []
-    fixed = [("interleaved", 3, 3), ("interleaved", 4, 4), ("interleaved", 2, 3), ("gauss", 2, 2), ("ties", 3, 4), ("grid", 5, 5)]
+    fixed = [("interleaved", 3, 3), ("interleaved", 4, 4), ("interleaved", 2, 3), ("gauss", 2, 2), ("ties", 3, 4), ("grid", 5, 5), ("const-equal", 4, 6), ("identical", 5, 5), ("one-const", 3, 7), ("const-diff", 5, 8)]
     for i in range(NP):
         if i < len(fixed):
             pairs.append(gen_pair(rng, *fixed[i]))
